@@ -80,7 +80,7 @@ func VerifC13Trim() {
 	fsys.PutFile(vDir+"/fuzz/seed-a", []byte("seed"), vNow-100*vDay)
 	// last-trim record
 	trimPath := vDir + "/trim.txt"
-	trimKind := rt.IntRange(0, 3)
+	trimKind := rt.IntRange(0, rt.Param("TK", 3))
 	var last int64
 	haveLast := false
 	switch trimKind {
